@@ -27,13 +27,13 @@ type vType struct {
 }
 
 type vService struct {
-	t     vType
-	dup   bool // declares the shared root field `dup`
-	node  bool // declares Query.node
-	probe bool // declares a node-shaped root field with another name
+	t      vType
+	dup    bool // declares the shared root field `dup`
+	node   bool // declares Query.node
+	probe  bool // declares a node-shaped root field with another name
 	marked bool // its Node type T also implements the interface Marked, which only this service declares
 	probe2 bool // declares a root field that returns Node but takes more than the id
-	idx   int
+	idx    int
 }
 
 var vSlim = false
